@@ -13,6 +13,8 @@ def lean_instr(ins):
         return ["gs", ins[1], ins[2]]
     if ins[0] == "rmv":
         return ["rmv", ins[1], len(ins) > 2 and ins[2] == "fail"]
+    if ins[0] == "raise":
+        return ["raise"]
     return list(ins)
 
 
@@ -51,9 +53,11 @@ class C19(Property):
     case_timeout = 60
     workers = 8
     rule = ("2-4 real threads run random programs (segments of nested get_set / exit / body-raise / rmv over 1-4 keys whose 16-bit "
-            "blake2b indexes are equal, distinct or colliding; getters ok / raising after j parts / raising a BaseException; the inner cacher's rmv ok / raising) on a real "
+            "blake2b indexes are equal, distinct or colliding; getters ok / raising when called / lazy generators raising after j parts while the inner cacher materialises them / raising a "
+            "BaseException; with-bodies raising an Exception or a BaseException; the inner cacher's rmv ok / raising) on a real "
             "ConcurrentCacher(instrumented MemoryCacher, recording list, scheduler lock) under a baton scheduler (random or "
-            "preemption-bounded schedules); plus DiskCacher cases (getter raising after j lines, file truncated at byte n, zero-length "
+            "preemption-bounded schedules); on a hang the wait-for edges of the real threads are compared with the model's wait-for graph; plus DiskCacher cases, alone and "
+            "wrapped in ConcurrentCacher (getter raising after j lines, file truncated at byte n, zero-length "
             "file), a few free-running runs on a real multiprocessing RawArray+Lock, and reader-depth probes (127-400 simultaneous read locks on one "
             "slot of the lock table built by CobaMultiprocessor, by nesting or by threads at a barrier). non-trivial = a scheduled run in which at least "
             "two threads operated on one index and a write lock was taken, or a disk case with a cut strictly inside the entry")
@@ -65,15 +69,26 @@ class C19(Property):
         "reads by one caller and 130-300 threads inside their with-blocks",
         "gzip/zlib: reading a truncated .gz member raises before end of file (trailer check)",
         "inner cacher operations are those of MemoryCacher (a failing getter stores nothing); DiskCacher is modelled separately as a map",
-        "the baton scheduler and the event labelling of harness/props/c19_sched.py, c19_run.py",
+        "the baton scheduler and the event labelling of harness/props/c19_sched.py, c19_run.py (a failed lock guard followed by the "
+        "repaired code's CobaException is relabelled `refuse`; `ccreate` marks the start of the inner populate = DiskCacher's file creation)",
+        "DiskCacher inside the scheduled runs is represented by MemoryCacher semantics plus the ccreate/cpop window; the real DiskCacher is "
+        "exercised sequentially (alone and through ConcurrentCacher), not under the scheduler",
+        "fairness: the scheduler gives every caller a turn again and again (FairSched); OS thread/process scheduling is assumed fair in this sense",
     ]
     assumptions = [
         "a caller never operates, inside a with-block, on a different key whose 16-bit hash collides with one it is reading (property quantifier)",
         "getters do not call back into the cacher; every returned context manager is entered and left",
-        "deadlock freedom is proved under the lock-hierarchy hypothesis Hier (nested operations go to keys already held or to larger indexes); "
+        "for the unrepaired code deadlock freedom and fair termination are proved under the lock-hierarchy hypothesis Hier (nested operations go to keys already held or to larger indexes); "
         "without it two callers can wait for each other (known finding C19-F1)",
     ]
-    partial_theorems = {"deadlock_free_partial": "needs Hier: cross-caller nested write-waits deadlock on the real code (C19-F1, counterexample replayed)"}
+    partial_theorems = {
+        "deadlock_free_partial": "needs Hier: cross-caller nested write-waits deadlock on the real code (C19-F1 = a 2-cycle of the wait-for graph, "
+                                 "f1_is_two_cycle, counterexample replayed); deadlock_free_repaired / fair_termination_repaired hold without any hypothesis for "
+                                 "the code with fixes/C19-nested-write-wait-raises.diff (the harness probes which variant it runs and uses the matching model)",
+        "fair_termination": "same hypothesis Hier (unrepaired code)",
+        "zero_length_is_absent_concurrent_partial": "needs the file not to be zero-length: through ConcurrentCacher a zero-length file raises (C19-F3, "
+                                                    "concurrent_zero_length_counterexample); test_overwrite_empty_cache pins the `in` semantics, no small repair",
+    }
 
     # ------------------------------------------------------------------ generation
     KEYSETS = None
@@ -91,8 +106,10 @@ class C19(Property):
         vctr[0] += 1
         if r < 68:
             return [vctr[0]]
+        if r < 74:
+            return [None, "call"]            # the getter itself raises when called
         if r < 98 or not base_ok:
-            return [None, rng.randint(0, parts)]
+            return [None, rng.randint(0, parts)]   # a lazy generator that raises after j parts while the inner cacher materialises it
         return [None, rng.randint(0, parts), "base"]
 
     def gen_seg(self, rng, nkeys, idx, mode, parts, vctr, base_ok=True):
@@ -111,7 +128,7 @@ class C19(Property):
                 st.pop()
                 continue
             if st and r < 38:
-                seg.append(["raise"])
+                seg.append(["raise", "base"] if rng.chance(0.3) else ["raise"])
                 return seg
             if not allowed:
                 seg.append(["exit"])
@@ -162,7 +179,7 @@ class C19(Property):
             cut = ["zero"]
         else:
             cut = ["none"]
-        return {"kind": "disk", "lines": L1, "lines2": L2, "cut": cut}
+        return {"kind": "disk", "lines": L1, "lines2": L2, "cut": cut, "conc": rng.chance(0.4)}
 
     def gen_mp_case(self, rng, tier):
         keys = list(rng.choice([["a"], ["a", "b"], [R.PAIRS[0][0], R.PAIRS[0][1]]]))
@@ -242,6 +259,7 @@ class C19(Property):
         for cut in (["getter", 0], ["getter", 1], ["getter", 2], ["getter", 1, "base"], ["getter-call"], ["zero"], ["none"],
                     ["truncate", 0], ["truncate", 1], ["truncate", 10], ["truncate", 20], ["truncate", 1000]):
             cs.append({"kind": "disk", "lines": ["a,b", "c"], "lines2": ["second"], "cut": cut})
+            cs.append({"kind": "disk", "lines": ["a,b", "c"], "lines2": ["second"], "cut": cut, "conc": True})
         # more simultaneous readers of one slot than a signed byte can count, on the lock table the library allocates
         cs.append({"kind": "depth", "variant": "nest", "n": 200})
         cs.append({"kind": "depth", "variant": "nest", "n": 128})
@@ -299,6 +317,13 @@ class C19(Property):
         progs = case["progs"]
         wn = all(well_nested(idx, p) for p in progs)
         hr = all(hier(idx, p) for p in progs)
+        repaired = bool(res.get("repaired"))
+        if repaired:
+            # with fixes/C19-nested-write-wait-raises.diff deadlock freedom is proved for all programs (deadlock_free_repaired)
+            tags.append("code:repaired-nested-write-wait")
+            in_q, hr_eff = True, True
+        else:
+            in_q, hr_eff = wn, hr
         tags.append("threads:%d" % len(progs))
         tags.append("keys:%d" % len(case["keys"]))
         tags.append("collide" if len(set(idx)) < len(idx) else "nocollide")
@@ -313,6 +338,10 @@ class C19(Property):
                 tags.append("ev:" + k)
         if any(o == "rmv-while-reading:CobaException" for os_ in res["outcomes"] for o in os_):
             tags.append("rmv-while-reading")
+        if any(o == "nested-write-refused:CobaException" for os_ in res["outcomes"] for o in os_):
+            tags.append("nested-write-refused")
+        if any(o == "BodyBaseErr" for os_ in res["outcomes"] for o in os_):
+            tags.append("body-base-exception")
         if res["base_raised"]:
             tags.append("getter-base-exception")
         if res.get("rmv_failed"):
@@ -329,7 +358,7 @@ class C19(Property):
         leak_sfx = ":after-getter-base-exception" if base_leak else ""
 
         # (B) the property, directly on what the real code did -- only for programs inside the quantifier
-        if wn:
+        if in_q:
             for sig, what in res["viol"]:
                 if leak_sfx and sig == "unexpected-exception:CobaException":
                     sig = "lock-leak" + leak_sfx   # the leaked _locks entry makes the same thread's next call refuse
@@ -339,7 +368,7 @@ class C19(Property):
                 if leak_sfx:
                     fails.append(F("B", "callers %s wait forever after a getter raised a BaseException inside get_set (write lock never released)" % res["live"],
                                    "lock-leak" + leak_sfx))
-                elif not hr and nested:
+                elif not hr_eff and nested:
                     fails.append(F("B", "callers %s wait forever: each is inside a with-block and waits for a write lock on an index another one is reading "
                                    "(cross-caller nested lock order)" % res["live"], "hang-nested-lock-order"))
                 else:
@@ -361,15 +390,18 @@ class C19(Property):
                                    "single-flight-count"))
         else:
             tags.append("outside-quantifier")
+        if res["status"] == "hang":
+            tags.append("hang-edges:%d" % len(res["wait_edges"]))
         # outside the quantifier (B) does not apply; the model mirrors the code with fixes/C19-getter-baseexception-lock-leak.diff,
         # so a run in which a BaseException leaked the lock cannot be compared with it
         if base_leak and not wn:
             tags.append("outside-quantifier-base-leak")
 
         model = None
-        if driver is not None and not fails and not base_leak:
+        if driver is not None and not [f for f in fails if f["sig"] != "hang-nested-lock-order"] and not base_leak:
             sched = [t for t, e in res["events"]]
-            ans = driver.ask({"op": "replay", "idx": idx, "progs": [[[lean_instr(i) for i in seg] for seg in p] for p in progs], "sched": sched})
+            ans = driver.ask({"op": "replay", "idx": idx, "repaired": repaired,
+                              "progs": [[[lean_instr(i) for i in seg] for seg in p] for p in progs], "sched": sched})
             model = {"events": len(ans["events"]), "stuck": ans["stuck"], "arr": ans["arr"], "terminal": ans["terminal"]}
             mev = ans["events"]
             iev = [e for t, e in res["events"]]
@@ -403,11 +435,29 @@ class C19(Property):
                     nxt = [ans["next"][i] for i in res["live"]]
                     if any(x is not None and x[0] != "spin" for x in nxt):
                         fails.append(F("A", "implementation hangs but the model has an enabled step %s" % nxt, "A:hang"))
+                    medges = sorted(e for e in ans["waitEdges"] if e[0] in res["live"])
+                    if medges != res["wait_edges"]:
+                        fails.append(F("A", "wait-for edges of the waiting callers: implementation %s, model %s" % (res["wait_edges"], medges), "A:wait-edges"))
                 if res["unlocked_writes"]:
                     fails.append(F("A", "%d writes to the shared array outside the lock" % res["unlocked_writes"], "A:unlocked-write"))
             # (C) the theorems' conclusions on the model's own final state
             if all(ans["terminal"]) and (any(x != 0 for x in ans["arr"]) or any(v != 0 for b in ans["book"] for v in b)):
                 fails.append(F("C", "model: all callers terminal but locks remain %s %s" % (ans["arr"], ans["book"]), "C:locks-released"))
+            if ans["stuck"] is None and (ans["runN_arr"] != ans["arr"] or ans["runN_terminal"] != all(ans["terminal"])):
+                fails.append(F("C", "model: runN and run disagree %s %s" % (ans["runN_arr"], ans["arr"]), "C:runN"))
+            if ans["deadlocked"] and not any(e[0] == e[1] for e in ans["waitEdges"]):
+                # deadlock_has_cycle: follow successors from any node until a repetition
+                succ = {}
+                for a_, b_ in ans["waitEdges"]:
+                    succ.setdefault(a_, b_)
+                node, seen = next(iter(succ), None), set()
+                while node is not None and node not in seen:
+                    seen.add(node)
+                    node = succ.get(node)
+                if node is None:
+                    fails.append(F("C", "model: deadlocked state without a wait-for cycle %s" % ans["waitEdges"], "C:cycle"))
+            if (repaired or (all(ans["wellNested"]) and all(ans["hier"]))) and ans["deadlocked"]:
+                fails.append(F("C", "model: deadlocked although the theorem's hypotheses hold", "C:deadlock-free"))
             if all(ans["wellNested"]) and all(ans["hier"]) and not all(ans["terminal"]) and ans["stuck"] is None:
                 if not any(x is not None and x[0] != "spin" for x in ans["next"]):
                     fails.append(F("C", "model: Hier program, not all terminal, but no non-spin step enabled", "C:deadlock-free"))
@@ -431,6 +481,9 @@ class C19(Property):
         L1 = [ln.rstrip("\r\n") for ln in case["lines"]]
         L2 = [ln.rstrip("\r\n") for ln in case["lines2"]]
         tags.append("disk:" + cut[0])
+        conc = bool(case.get("conc"))
+        if conc:
+            tags.append("disk-through-concurrent")
         s2 = o.get("stage2")
         what = "DiskCacher, entry %r, cut %s: second get_set gave %s" % (L1, cut, s2)
         nontrivial = False
@@ -455,19 +508,28 @@ class C19(Property):
         else:
             if s2 != ["value", L1]:
                 fails.append(F("B", what + " although the entry is complete", "disk-complete-entry-lost"))
+        zero_now = bool(o["present_after_stage1"]) and o["size_after_stage1"] == 0
+        if conc and zero_now and s2[0] == "raised":
+            fails.append(F("B", "ConcurrentCacher(DiskCacher).get_set on a zero-length file (left by a crash) raised %s instead of re-populating; "
+                           "the caller does not receive the value" % s2[1], "disk-zero-length-raises-through-concurrent"))
+        if conc and (o.get("array_nonzero") or o.get("locks_nonzero")):
+            fails.append(F("B", "locks remain after the disk calls: %s %s" % (o.get("array_nonzero"), o.get("locks_nonzero")), "array-nonzero-after-exit"))
         model = None
-        if driver is not None and not fails:
+        if driver is not None and not [f for f in fails if f["sig"] != "disk-zero-length-raises-through-concurrent"]:
             if cut[0] in ("getter", "getter-call"):
                 w = ["failBefore"] if cut[0] == "getter-call" else ["cut", [1]]
-                a1 = driver.ask({"op": "disk", "fs": None, "w": w})
+                a1 = driver.ask({"op": "disk", "fs": None, "w": w, "conc": conc})
                 if (a1["fs"] is not None) != bool(o["present_after_stage1"]) or ("raised" in a1["out"]) != (o["stage1"][0] == "raised"):
                     fails.append(F("A", "after the failed write: file present=%s outcome=%s; model fs=%s out=%s"
                                    % (o["present_after_stage1"], o["stage1"], a1["fs"], a1["out"]), "A:disk-write-failure"))
             fs = None if not o["present_after_stage1"] else ([] if o["size_after_stage1"] == 0 else [1])
-            a2 = driver.ask({"op": "disk", "fs": fs, "w": ["complete", [2]]})
+            a2 = driver.ask({"op": "disk", "fs": fs, "w": ["complete", [2]], "conc": conc})
             model = a2
             m_repop = a2["out"].get("value") == [2]
-            if "raised" in a2["out"] or o["stage2_call"][0] != "value" or m_repop != bool(o["getter2_called"]):
+            if ("raised" in a2["out"]) != (o["stage2_call"][0] != "value") or (a2["fs"] is not None) != bool(o["present_after_stage2"]):
+                fails.append(F("A", "second get_set: call outcome=%s file present=%s; model %s" % (o["stage2_call"], o["present_after_stage2"], a2),
+                               "A:disk-second-get_set"))
+            elif "raised" not in a2["out"] and m_repop != bool(o["getter2_called"]):
                 fails.append(F("A", "second get_set: getter called=%s call outcome=%s; model %s" % (o["getter2_called"], o["stage2_call"], a2["out"]),
                                "A:disk-second-get_set"))
         return {"fails": fails, "nontrivial": nontrivial, "tags": tags, "impl": o, "model": model}
@@ -518,8 +580,8 @@ class C19(Property):
         model = None
         if driver is not None and not fails and case["variant"] == "nest":
             prog = [[["gs", 0, 1]] * n]
-            deep = driver.ask({"op": "replay", "idx": [7], "progs": [prog], "sched": [0] * (5 * n + 5)})
-            done = driver.ask({"op": "replay", "idx": [7], "progs": [prog], "sched": [0] * (7 * n + 5)})
+            deep = driver.ask({"op": "replay", "idx": [7], "progs": [prog], "sched": [0] * (5 * n + 6)})
+            done = driver.ask({"op": "replay", "idx": [7], "progs": [prog], "sched": [0] * (7 * n + 6)})
             model = {"deepest": deep["arr"], "after": done["arr"], "terminal": done["terminal"]}
             if deep["arr"] != [o["deepest"]] or done["arr"] != [o.get("slot_after")] or done["terminal"] != [True]:
                 fails.append(F("A", "%s: implementation slot %s / %s, model %s / %s" % (where, o["deepest"], o.get("slot_after"), deep["arr"], done["arr"]),
